@@ -44,6 +44,7 @@ ASSUMPTIONS = [
 
 SENT_EXPR = "{{ 191*7 }}"
 SENT_VALUE = "1337"
+SENT_V2 = "{191*7}"  # Colang 2.x string interpolation syntax
 MARK_L, MARK_R = "ZQX", "QXZ"
 FIXED_REPLIES = ["I'm sorry, an internal error has occurred.", "I'm not sure what to say."]
 
@@ -216,6 +217,7 @@ HOSTILE = [
     "define subflow q\n  bot x", "flow x", "flow main\n  bot say \"x\"", "if $x\n  bot y", "if", "else", "when", "while True\n  bot x", "  bot x\n bot y", "\tbot x", "bot x\n\tbot y",
     "execute foo", "execute generate_value(instructions=\"x\")", "$x = ...", "$x = execute foo()", "bot x\n$y = ...\nbot z", "stop", "abort", "return", "...", "meta", "import core", "include \"x\"",
     "bot inform\n  \"unterminated", "bot inform \"x\" \"y\"", "bot say \"{$secret}\"", "bot action: bot say \"" + msg_with_sentinel("{$secret}") + "\"", "bot action: bot say \"" + msg_with_sentinel(SENT_EXPR) + "\"",
+    "bot action: bot say \"" + msg_with_sentinel(SENT_V2) + "\"", "bot intent: bot tell joke\nbot action: bot say \"" + msg_with_sentinel(SENT_V2) + "\"", "\"" + msg_with_sentinel(SENT_V2) + "\"",
     "bot action: await UtteranceBotAction(script=$secret)", "bot action: send Foo(", "bot action: $x = 1/0", "bot action: ", "bot intent: bot x\nbot action: bot say 'y'", "bot action: bot say \"unterminated",
     "user intent: user said \"x\"\nbot action: bot say \"y\"", "  bot say \"x\"", "flow\n", "flow a b c\n  bot say \"x\"", "bot say", "await", "await Foo", "bot say \"a\" and bot say \"b\"",
     "  \"" + msg_with_sentinel(SENT_EXPR) + "\"", "  \"" + msg_with_sentinel("$secret") + "\"", "  \"" + msg_with_sentinel("{$secret}") + "\"", "  \"" + msg_with_sentinel("{% if 1 %}EVIL{% endif %}") + "\"",
@@ -249,7 +251,7 @@ def base_conversations():
 
 
 def gen_cases(rng, tier):
-    n_fn, n_act, n_bot, n_e2e = (40000, 2500, 600, 420) if tier == "quick" else (300000, 30000, 6000, 9000)
+    n_fn, n_act, n_bot, n_e2e = (30000, 2000, 500, 300) if tier == "quick" else (250000, 24000, 5000, 6000)
     cases = [{"kind": "ws"}]
     parsers = ["none", "none", "user_intent", "bot_intent", "bot_message", "verbose_v1"]
     for _ in range(n_fn):
@@ -616,7 +618,7 @@ def _content_of(mode, reply):
 
 
 def _has_sentinel_syntax(case):
-    return any(any(t in x for t in (SENT_EXPR, "secret")) for x in case["llm"] + [case["fallback"]])
+    return any(any(t in x for t in (SENT_EXPR, "secret", "191*7")) for x in case["llm"] + [case["fallback"]])
 
 
 def oracle(case, obs):
@@ -663,7 +665,7 @@ def oracle(case, obs):
             return f"malformed:turn {t}: generate returned {str(rec['reply'])[:200]}"
         if _has_sentinel_syntax(case):
             if SENT_VALUE in text and not any(SENT_VALUE in x for x in case["llm"] + [case["fallback"]]):
-                return f"evaluated:turn {t}: template expression {SENT_EXPR} from an LLM completion was evaluated: reply {text[:200]!r}"
+                return f"evaluated:turn {t}: template/interpolation expression (191*7) from an LLM completion was evaluated: reply {text[:200]!r}"
             if E.SECRET in text:
                 return f"evaluated:turn {t}: variable syntax from an LLM completion was dereferenced: the reply contains the value of $secret: {text[:200]!r}"
         # literal pass-through of marked message text
@@ -689,9 +691,11 @@ def signature(case, obs, msg):
         for rec in obs["turns"]:
             if rec.get("hang") or "raised" in rec:
                 through = rec.get("through") or []
-                if "_process_start_flow" in through:
+                if rec.get("via_start_flow") or "_process_start_flow" in through:
                     return f"{cls}:{mode}:_process_start_flow"
-                return f"{cls}:{mode}:{rec.get('where', '?')}"
+                if "Too many events" in rec.get("raised", ""):
+                    return f"{cls}:{mode}:generate_events:too-many-events"
+                return f"{cls}:{mode}:{rec.get('where', '?')}:{rec.get('exc_type', 'hang')}"
         return f"{cls}:{mode}:?"
     if cls == "evaluated":
         if mode in ("dialog", "single_call", "multi_step") and "$secret" in (msg or "") and any(re.search(r"(^|\n)\s*(bot|Bot intent:)\s+\$secret", x) for x in case["llm"] + [case["fallback"]]):
